@@ -395,6 +395,11 @@ func (d *decCtx) spec(s *gen.SpecM, attrs map[string]ast.Node, blocks map[string
 					d.err = true
 					continue
 				}
+				if r.Loose {
+					// (as for AttrSpec: the value's exact type is not determined)
+					d.un = "U9-loose-operand"
+					continue
+				}
 				v, err := convert.Convert(r.V, s.Type)
 				if err != nil {
 					d.err = true
